@@ -22,7 +22,7 @@ DOC = {
         'C13.R4': 'each FilePos-FileLen / FileLen-FileLen is dominated by a comparison of the same operands or its right operand is clamped by min(_, left)',
         'C13.R10': 'the number of files that can be hashed does not depend on a race between the hashing thread and a helper thread: blocking helper threads are joined (re-evaluates C19.R8)',
         'C13.R9': 'every run terminates: a pipe handed to the transform program as its standard output is read - the Output variants under which build_command uses Stdio::piped() are among those under which execute moves child.stdout into the stream it returns (otherwise the child blocks on a full pipe while fclones waits for it)',
-        'C13.R8': 'with --follow-links the set of scanned files does not depend on which route reaches an entry first (order of the input paths, --threads): the visited mark is level-aware, made when the directory is really read, after the route-specific tests, and links re-visit like directories (re-evaluates C09.R11)',
+        'C13.R8': 'with --follow-links the set of scanned files does not depend on which route reaches an entry first (order of the input paths, --threads): the visited mark is level-aware, made when the directory is really read, after the route-specific tests, and links re-visit like directories; the ignore rules of a route are part of the visited record (re-evaluates C09.R11 and C09.R15)',
         'C13.R7': 'the standard input is read once: with --stdin the scan consumes the list, so the isolate roots (root_paths) and their validation use the positional arguments, and --isolate with roots only on stdin is refused with an explicit message',
         'C13.R6': 'no child process shares the standard input or output of fclones (the list of paths of --stdin, the report): every Command created in the library gets an explicit stdin and stdout before it is spawned',
         'C13.R5': 'termination: the semaphore blocking the hashing tasks never loses a wake-up (re-evaluates C19.R1-R4)',
@@ -48,6 +48,7 @@ def run(ctx):
     from . import c09
     reevaluate(ctx, 'C13.R8', c09.r11)
     reevaluate(ctx, 'C13.R8', c09.r11b)
+    reevaluate(ctx, 'C13.R8', c09.r15)
     from .common import run_mandatory
     run_mandatory(ctx, 'C13')
     if ctx.tier == 'thorough' and not getattr(ctx, 'sibling', None):
